@@ -195,7 +195,7 @@ func runQual() {
 				cases = append(cases, sc)
 				sc.First = line + 1
 				emit(ev{"ev": "reset", "c": sc.ID, "req": req, "schema": marker,
-					"start": map[string]any{"tables": []string{}, "fks": [][3]string{}}, "want": map[string]any{"tables": []string{}, "fks": [][3]string{}}})
+					"start": map[string]any{"tables": []string{}, "fks": [][4]string{}}, "want": map[string]any{"tables": []string{}, "fks": [][4]string{}}})
 				var opts []migrate.PlanOption
 				if req == "none" {
 					opts = append(opts, func(o *migrate.PlanOptions) { o.SchemaQualifier = new(string) })
